@@ -125,4 +125,15 @@ theorem Compare (s t : Bytes) (r0 o0 r1 o1 : Nat) (h : Heap) (hls : s.length < 4
   rfl
 
 
+/-- `EqualFold(s, t) = Compare(s, t) == 0` -/
+theorem EqualFold_of_Compare (s t : Val) (h h' : Heap) (c : Int) (hC : Ret P true byt_Compare [s, t] h [.int c] h') :
+    Ret P true byt_EqualFold [s, t] h [.bool (decide (c = 0))] h' := by
+  obtain ⟨n, hn⟩ := hC
+  refine ⟨n + 3, fun fuel hf => ?_⟩
+  obtain ⟨m, rfl⟩ : ∃ m, fuel = m + 3 := ⟨fuel - 3, by omega⟩
+  have hC' := hn (m + 2) (by omega)
+  rw [Frame.entry]
+  src_run [byt_EqualFold, byt_EqualFold_b0, run_call_fn (hb := nb_Compare) (hf := find_Compare), hC']
+
+
 end GoSsa.Byt
